@@ -402,7 +402,7 @@ func probes() []probe {
 		},
 		{
 			name: "shrink-between-aof-check-and-open", finding: findingAOFPosSwap, status: "open",
-			what: "leader (child process, log pipe kept full by the harness) holds a 2.1 MB log for a tiny dataset; the follower, in sync, reconnects and asks AOF <its size>; the leader validates the position and blocks in its 'live' log line; AOFSHRINK swaps in a log of a few hundred bytes; the pipe is drained; the leader then writes k/new and k/new2",
+			what:   "leader (child process, log pipe kept full by the harness) holds a 2.1 MB log for a tiny dataset; the follower, in sync, reconnects and asks AOF <its size>; the leader validates the position and blocks in its 'live' log line; AOFSHRINK swaps in a log of a few hundred bytes; the pipe is drained; the leader then writes k/new and k/new2",
 			custom: aofPosSwapHistory,
 		},
 		{
